@@ -17,6 +17,7 @@ from vf import c01_cases as K
 from vf import c01_driver as D
 from vf import c01_oracle as O
 from vf.common import Ctx
+from vf.common import HarnessError
 
 RULE = (
     'one compile(with_mapping=True) per (circuit, model, level, mss); '
@@ -344,6 +345,25 @@ def run(ctx: Ctx) -> None:
                 stats['measured_and_moved'] += 1
     ctx.part('mapping_coverage', **stats)
 
+    # ---- the "number of workers / schedule" quantifier: real compile()
+    # runs inside the E1 world under every schedule with <= 1 deviation
+    # (vf/c01_world.py; same oracle).  Reports through ctx.
+    try:
+        from vf import c01_world
+        st = c01_world.run_part(ctx, seconds=45 if ctx.quick else 900)
+        ctx.cov['evaluations'] += st['executions']
+        ctx.cov['world_schedule_executions'] = st['executions']
+    except HarnessError:
+        raise
+
 
 def replay(ctx: Ctx, obj: dict) -> bool:
+    if obj.get('engine') == 'E1' or 'choices' in obj:
+        from vf import c01_world  # noqa: F401  (registers the judge)
+        from vf import explore
+        v = explore.replay_item(obj['spec'], obj['choices'], obj.get('fault'),
+                                obj.get('judge', 'c01w'))
+        for sig, what in v:
+            print(f'# {sig}: {what[:500]}')
+        return not v
     return D.replay_case(ctx, obj, judge)
